@@ -44,6 +44,16 @@ def parse_write(bib, text, budget=None):
         return {"clause": "write_string_raised", "detail": f"{type(e).__name__}: {str(e)[:100]}"}
     if not isinstance(s, str):
         return {"clause": "write_string_raised", "detail": f"returned {type(s).__name__}"}
+    # ... whatever BibtexFormat the caller asks for ("write_string on that library returns a string")
+    for vc, tc, sep in (("auto", True, ""), (12, False, "\n")):
+        fmt = bib.BibtexFormat()
+        fmt.value_column, fmt.trailing_comma, fmt.block_separator, fmt.indent = vc, tc, sep, ""
+        try:
+            s = bib.write_string(lib, bibtex_format=fmt)
+        except BaseException as e:  # noqa
+            return {"clause": "write_string_raised", "detail": f"value_column={vc!r} separator={sep!r}: {type(e).__name__}: {str(e)[:100]}"}
+        if not isinstance(s, str):
+            return {"clause": "write_string_raised", "detail": f"returned {type(s).__name__}"}
     return None
 
 
@@ -122,12 +132,20 @@ def run(chk: core.Check):
     # totality of the two entry points, with a time budget; the biggest scale is checked for this clause only
     big = [] if chk.tier == "quick" else list(splitpipe.families(100000).items())
     allt = list(zip(labels, texts)) + [(f"{k}[100000]", v) for k, v in big] + [("garbage", g) for g in garb]
+    # every mark character pumped in every control state (64 and the largest scale), and texts with lone surrogates
+    # (legal Python str; only this clause, they cannot be handed to TLC as JSON)
+    allt += list(splitpipe.pumped(64).items()) + list(splitpipe.pumped(scales[-1]).items())
+    allt += [("lone surrogate", t) for t in splitpipe.SURROGATES] + [("lone surrogate", g[:len(g) // 2] + "\udc9f" + g[len(g) // 2:]) for g in garb[:200]]
     t0 = time.time()
+    hangs = 0
     for label, t in allt:
+        if hangs >= 3:
+            break              # (a hanging tree: three reports are enough, each costs two budgets)
         budget = 30 + len(t) * 2e-4
         x = parse_write(bib, t, budget)
         if x and x["clause"] == "hang":
             x = parse_write(bib, t, budget)  # re-run once before reporting (DESIGN 9)
+            hangs += 1 if x and x["clause"] == "hang" else 0
         if x:
             report(chk, t, x["clause"], f"{label}: {x['detail']}", how="parse_string+write_string")
     chk.clause("T3.parse_string+write_string_return", len(allt))
